@@ -43,6 +43,20 @@ example : huffEncode (ofString "www.example.com") =
 example : huffDecode 100 [0xf1, 0xe3, 0xc2, 0xe5, 0xf2, 0x3a, 0x6b, 0xa0, 0xab, 0x90, 0xf4, 0xff] =
     .ok (ofString "www.example.com") := by rfl
 
+/-- Huffman, the other direction ("invalid is an error, never a different
+    string"): whatever the table-driven decoder accepts is the canonical
+    encoding of what it returns — the codes of the returned octets followed by
+    fewer than 8 one-bits. Hence an input with EOS inside, with 8 or more bits
+    of padding or a 0 bit in the padding is rejected, and two different inputs
+    never decode to the same string. For ALL inputs and buffer sizes. -/
+theorem c07_huffman_canonical (cap : Nat) (src s : Bytes) (h : huffDecode cap src = .ok s) :
+    src = huffEncode s :=
+  huffDecode_canonical cap src s h
+
+example : huffDecode 100 [0xf1, 0xe3, 0xc2, 0xe5, 0xf2, 0x3a, 0x6b, 0xa0, 0xab, 0x90, 0xf4, 0xff, 0xff] =
+    .error .badData := by rfl     -- one more octet of padding
+example : huffDecode 100 [0xff, 0xff, 0xff, 0xff] = .error .badData := by rfl   -- EOS
+
 /-- String literals (RFC 7541 5.2), raw or Huffman coded. -/
 theorem c07_string_roundtrip (cap : Nat) (huff : Bool) (s rest : Bytes)
     (hlen : s.length < cap) (hcap : cap ≤ 65535) :
@@ -229,6 +243,25 @@ theorem c07_response_names_lowercase (k v : Bytes) :
 
 example : emitName ⟨hkeyGet (ofString "ETag"), ofString "ETag", ofString "x"⟩ = ofString "etag" := by
   decide
+
+/-- Response direction, repeated fields: a field a module sends several times
+    (http_header_response_insert(), e.g. Set-Cookie) is stored as one text
+    "v1\r\nname: v2..." and h2_send_headers() cuts it at fixed offsets — for
+    every name and every list of non-empty values without LF the peer gets one
+    field per value, in order, under the lower-cased name. -/
+theorem c07_repeated_fields_split (k : Bytes) (vs : List Bytes) (hk : k ≠ []) (hne : vs ≠ [])
+    (hv : ∀ v ∈ vs, v ≠ [] ∧ lf ∉ v)
+    (hsize : 14 + k.length + (joinRepeated (lower k) vs).length + 4 ≤ 65535)
+    (homit : ¬ ((k.headD 0 &&& 0xdf) = 88 ∧ omitHeader k = true)) :
+    let r := vs.foldl (fun r v => Resp.insert r k v) ({} : Resp)
+    ∃ a, bodyFields r.repeated r.arr 14 = some (vs.map (fun v => (lower k, v)), a) :=
+  repeated_fields k vs hk hne hv hsize homit
+
+example : respFields 200
+    ((({} : Resp).insert (ofString "Set-Cookie") (ofString "a=1")).insert (ofString "set-cookie") (ofString "b=2"))
+    none =
+    some [(ofString ":status", ofString "200"), (ofString "set-cookie", ofString "a=1"),
+          (ofString "set-cookie", ofString "b=2"), (ofString "date", autoDate)] := by decide
 
 /-! Deviations of lshpack_dec_decode() from RFC 7541 that the model keeps (the
     correspondence check replays them against the C on every run): they are
